@@ -476,7 +476,11 @@ def run(ctx):
             model = [up(ename, s) for s in rows]
         kind = shape
         history = []
-        init = {"encoding": ename, "shape": shape, "initial": model}
+        # blind chains: intermediate results are handed to the next operation without the harness decoding them (decoding flattens a lazy
+        # selection in place, which hides anything that only goes wrong on a not-yet-flattened view); only the end of the chain is judged
+        blind = r.random() < 0.4
+        pending = None
+        init = {"encoding": ename, "shape": shape, "initial": model, "blind": blind}
         for step in range(r.randint(1, maxops)):
             try:
                 op, p = gen_op(kind, model, r, ename)
@@ -505,13 +509,19 @@ def run(ctx):
                 ctx.observe("operation-not-implemented:%s" % opkey)
                 history.pop()
                 continue
+            if blind and new_kind in ("ragged", "flat", "matrix"):
+                obj, model, kind = res, new_model, new_kind
+                pending = (opkey, dict(wit, program=list(history)), nt)
+                ctx.count("blind_steps")
+                continue
+            pending = None if blind and op in ("tolist", "ravel", "copy") else pending
             try:
                 got = observed(res, new_kind)
             except Exception as e:
                 ctx.judged(opkey, nt)
                 ctx.violation("%s/result-not-decodable:%s" % (opkey, type(e).__name__), "result of %s cannot be decoded: %s" % (opkey, str(e)[:100]), wit)
                 return
-            if op.startswith("assign") or op == "copy":
+            if (op.startswith("assign") or op == "copy") and not blind:
                 # item assignment ran on a copy: the object the copy was taken from still decodes to its own model
                 try:
                     still = observed(obj, kind)
@@ -534,8 +544,23 @@ def run(ctx):
             if new_kind in ("ragged", "flat", "matrix"):
                 obj, model, kind = res, new_model, new_kind
             # else: keep operating on the previous object
+        if blind and pending is not None:
+            opkey, wit, nt = pending
+            try:
+                got = observed(obj, kind)
+            except Exception as e:
+                if not originates_in_library(e):
+                    raise
+                ctx.judged("chain-end", nt)
+                ctx.violation("chain-end.%s/result-not-decodable:%s" % (opkey, type(e).__name__), "the end of an unobserved chain cannot be decoded: %s" % str(e)[:100], wit)
+                return
+            ctx.check("chain-end", got == model, "chain-end.%s/differs-from-list-model" % opkey, "unobserved chain ending in %s: got %r, list model %r" % (opkey, got if not isinstance(got, list) else got[:6], model if not isinstance(model, list) else model[:6]),
+                      dict(wit, got=got, expected=model), nt)
+            b = bounds_violation(obj)
+            if b:
+                ctx.violation("bounds/chain-end.%s" % opkey, "end of chain: %s" % b, wit)
 
-    n = ctx.share(ctx.pick(6000, 200000))
+    n = ctx.share(ctx.pick(24000, 240000))
     for i in range(n):
         ctx.run_case(program, {"seed": rng.randrange(2 ** 40)})
     ctx.sample({"encoding": "DNA", "initial": ["ACG", "", "TT"], "program": [["row_slice", {"start": None, "stop": None, "step": -1}], ["col_reverse", {}], ["row_fancy", {"idx": [0, 1]}], ["eq_char", {"c": "T"}]]})
